@@ -1,4 +1,4 @@
 From Coq Require Extraction ExtrOcamlBasic.
-From Rpgp Require Import Base.Octets Key.Scalar.
+From Rpgp Require Import Base.Octets Key.Scalar Key.Flags.
 Extraction Language OCaml.
-Separate Extraction Byte.to_N Byte.of_N Scalar.strip Scalar.pad_to Scalar.mpi_encode Scalar.mpi_decode.
+Separate Extraction Byte.to_N Byte.of_N Scalar.strip Scalar.pad_to Scalar.mpi_encode Scalar.mpi_decode Flags.flags_octet.
